@@ -64,7 +64,9 @@ impl Prop for C15 {
         vec!["two edges in three carry a unique i32 attribute; subgraph, set_all_edge_weights and double reverse must keep it, to_single_edges (documented to lose attributes) and single reverse are not checked for it".into(), "group sums are compared bit-exactly; weights are dyadic so the order of summation does not matter, NaN if any member is unweighted".into()]
     }
     fn enumerate(&self, _tier: Tier) -> Vec<DerivCase> {
-        gen::enumerate_histories(1).into_iter().map(|h| DerivCase { src: AnyGraph::Hist(h), subset: vec![1, 0], w: 4 }).collect()
+        let mut v: Vec<DerivCase> = gen::enumerate_histories(1).into_iter().map(|h| DerivCase { src: AnyGraph::Hist(h), subset: vec![1, 0], w: 4 }).collect();
+        v.extend(crate::huge::huge_cases().into_iter().map(|g| DerivCase { src: AnyGraph::Graph(g), subset: vec![], w: 4 }));
+        v
     }
     fn strategy(&self, tier: Tier) -> BoxedStrategy<DerivCase> {
         (any_graph_strategy(tier.pick(20, 40)), prop_oneof![6 => vec(any::<u8>(), 0..7), 1 => vec(any::<u8>(), 7..60)], prop_oneof![1 => 0u8..6, 1 => any::<u8>()]).prop_map(|(src, subset, w)| DerivCase { src, subset, w }).boxed()
@@ -73,6 +75,18 @@ impl Prop for C15 {
         tier.pick(100_000, 1_000_000)
     }
     fn check(&self, case: &DerivCase) -> Outcome {
+        if let AnyGraph::Graph(c) = &case.src {
+            if c.big_n > 60_000 {
+                // the fixed huge-graph cases (more than 2^16 nodes), linear oracles
+                let mut out = Outcome::new();
+                let ng = c.norm();
+                let g = ng.build();
+                crate::huge::derived(&g, &ng, &mut out);
+                out.class("huge_graph_66003_nodes");
+                out.nontrivial = true;
+                return out;
+            }
+        }
         let mut out = Outcome::new();
         let Some((g, m)) = realise(&case.src, &mut out) else {
             return out;
